@@ -365,3 +365,12 @@ Theorem C04_keep_snapshot_needs_copy :
     = [[(ZRet 6, [])]].
 Proof. exact z_keep_alias_refuted. Qed.
 Print Assumptions C04_keep_snapshot_needs_copy.
+(* HISTORY INDEPENDENCE: after ANY two histories (different faults, retries, order of requests, other objects touched),
+   accesses to i that return, return the same array *)
+Theorem C04_dataset_history_independent : forall (V K : Type) (getitem : V -> K -> option V) (w : z_world V K),
+  z_wf V K w -> forall h1 h2 p1 p2 i c1' a1 lg1 c2' a2 lg2,
+  z_spec_access getitem (List.length w) w p1 (z_spec_after V K getitem w (fun _ => None) h1) i = (c1', ZRet a1, lg1) ->
+  z_spec_access getitem (List.length w) w p2 (z_spec_after V K getitem w (fun _ => None) h2) i = (c2', ZRet a2, lg2) ->
+  a1 = a2.
+Proof. exact z_spec_history_independent. Qed.
+Print Assumptions C04_dataset_history_independent.
